@@ -49,6 +49,22 @@ CHECKS = {
              "free-text literals stop only at their own delimiter, the "
              "backslash arm keeps escaped delimiters in the payload.",
         ref="DESIGN.md §3 C03"),
+    "C09": dict(
+        technique="abstract stack-effect analysis of every extracted "
+                  "template AST (allowed-use typestate of the `stack` "
+                  "variable, per-path pop counts vs declared arity)",
+        category="other",
+        text="Decides for every key of the element table, every modifier "
+             "template and every structure skeleton that the data stack is "
+             "touched only via pop(stack, literal k, ctx), stack.append and "
+             "stack += ..., that at most `arity` entries are popped on every "
+             "path (exactly `arity` for process_element boilerplate), peeks "
+             "stay within the arity, and the stack object is handed only to "
+             "the called function / list-item closure; whole-stack "
+             "operations are a frozen reasoned table; helpers.pop/wrapify pop "
+             "exactly `count`; ctx.stacks is read only at four reasoned "
+             "sites.",
+        ref="DESIGN.md §3 C09"),
     "C12": dict(
         technique="stack-height (typestate) analysis over the structured CFG "
                   "of every extracted template x hole state, and of python "
